@@ -22,10 +22,12 @@ import (
 	"github.com/wundergraph/go-arena"
 
 	"github.com/wundergraph/graphql-go-tools/v2/pkg/ast"
+	"github.com/wundergraph/graphql-go-tools/v2/pkg/astnormalization"
 	"github.com/wundergraph/graphql-go-tools/v2/pkg/engine/datasource/httpclient"
 	"github.com/wundergraph/graphql-go-tools/v2/pkg/engine/plan"
 	"github.com/wundergraph/graphql-go-tools/v2/pkg/engine/resolve"
 	"github.com/wundergraph/graphql-go-tools/v2/pkg/internal/unsafebytes"
+	"github.com/wundergraph/graphql-go-tools/v2/pkg/operationreport"
 )
 
 type resultData struct {
@@ -73,6 +75,19 @@ func NewDataSource(transport RPCTransport, config DataSourceConfig) (*DataSource
 	if err != nil {
 		return nil, err
 	}
+
+	// The planner expects a normalized operation: fragment spreads inlined, inline fragments on the
+	// enclosing type merged into the parent selection and duplicate fields merged.
+	// The engine already hands over such an operation, in which case this is a no-op.
+	report := &operationreport.Report{}
+	astnormalization.NewWithOpts(
+		astnormalization.WithInlineFragmentSpreads(),
+		astnormalization.WithRemoveFragmentDefinitions(),
+	).NormalizeOperation(config.Operation, config.Definition, report)
+	if report.HasErrors() {
+		return nil, fmt.Errorf("unable to normalize operation: %w", report)
+	}
+
 	plan, err := planner.PlanOperation(config.Operation, config.Definition)
 	if err != nil {
 		return nil, err
